@@ -84,6 +84,15 @@ def handle (j : Json) : Except String Json := do
                       ("ages_svc", optInts ((agesSvc origin World.init none 0 ops).map (·.map Int.ofNat))),
                       ("ages_model", optInts (agesModel origin none ops)),
                       ("installations", Json.arr ((installations origin ops).map (fun seg => ints (seg.map (·.ts)))).toArray)])
+  | "runScale" =>
+    -- a LONG history in run-length form: n hits, the k-th at time t0 + k*step, condition true; only the totals come back
+    let n ← getNat j "n"
+    let t0 ← getInt j "t0"
+    let step ← getInt j "step"
+    let hits := (List.range n).map (fun k => Hit.mk (t0 + (k : Int) * step) true)
+    let (st, coll) := runFrom cfg Stats.init hits
+    pure (Json.mkObj [("count", toJson coll.length), ("last", toJson st.last), ("stats_count", toJson st.count),
+                      ("first", toJson (coll.head?.getD 0))])
   | "opsD" =>
     -- configuration operations and their hand-over to the trigger handler as separate events
     let origin ← match (← getStr j "origin") with
